@@ -5,13 +5,14 @@ from __future__ import annotations
 import ast
 
 from ..astutil import (
-    attr_stores, call_name, calls_in, dotted, guard_atoms, lexical_guards, test_atoms, unparse, walk_local,
+    attr_stores, call_name, calls_in, dotted, enclosing_try, guard_atoms, lexical_guards, parent_map, test_atoms,
+    unparse, walk_local,
 )
 from ..cfg import no_exc
 from ..report import Registry, sub, chain
 from ._helpers_rules_c import (
-    attr_store_sites, both, call_nodes, calls_ending, cut_edges, fin_quiet, must_pass, quiet, rcfg,
-    receiver_class, test_edges, trivial_predicates,
+    attr_store_sites, both, call_nodes, calls_ending, cut_edges, cut_exc_out, fin_quiet, must_pass, own_calls, quiet,
+    rcfg, receiver_class, reraise_view, test_edges, trivial_predicates,
 )
 
 R = Registry(
@@ -334,14 +335,24 @@ def r5(ctx):
     deact = call_nodes(g, lambda nm, c: nm == "self._deactivate_from_connection")
     rec = call_nodes(g, lambda nm, c: nm == "self._previous_nested._cancel")
     no_prev = test_edges(g, lambda t, p: t == "self._previous_nested" and p is False)
-    w = None
-    for through, what in ((off, "is_active = False"), (deact, "_deactivate_from_connection()"), (rec, "_previous_nested._cancel()")):
+    # a path on which the savepoint is already inactive owes no `is_active = False` -- but it still owes the
+    # unlink and the recursion: an inactive savepoint can still be linked (failed RELEASE, out-of-order rollback)
+    already_off = test_edges(g, lambda t, p: t == "self.is_active" and p is False)
+    w, missing = None, []
+    for through, what, cuts in ((off, "is_active = False", no_prev + already_off),
+                                (deact, "_deactivate_from_connection()", []),
+                                (rec, "_previous_nested._cancel()", no_prev)):
         if not through:
+            missing.append(what)
             w = w or [f"missing: {what}"]
         else:
-            w = w or must_pass(g, [g.entry], [g.exit], through, edge_ok=both(no_exc, cut_edges(no_prev)))
+            w1 = must_pass(g, [g.entry], [g.exit], through, edge_ok=both(no_exc, cut_edges(cuts)))
+            if w1 is not None:
+                missing.append(what)
+                w = w or w1
     ctx.check(w is None, f.key,
-              "_cancel does not deactivate this savepoint, unlink it and cancel every enclosing savepoint",
+              "_cancel can return without " + " / ".join(missing) + ": when the root transaction ends, this savepoint "
+              "(or an enclosing one) stays linked as connection._nested_transaction or stays active",
               "is_active=False, unlink, recurse into _previous_nested", f.loc, w)
     f = ctx.func(f"{ENG}::NestedTransaction._deactivate_from_connection")
     g = ctx.cfg(f)
@@ -366,6 +377,97 @@ def r6(ctx):
         ctx.check(hooks == {f"self._do_{name}"} and w is None, f.key,
                   f"{name}() calls {sorted(hooks) or 'no hook'} instead of exactly self._do_{name}() on every path",
                   f"-> self._do_{name}()", f.loc, w)
+
+
+# ---------------------------------------------------------------------- C23-R7
+# In-progress ("re-entrancy") flags of the transaction machinery: an attribute of `self` that one function sets
+# to True and later -- on a path through the same function -- resets to False.  While the flag is True, code
+# gated on it is switched off (`Connection._autobegin` does nothing while `__in_begin`), so a flag that survives
+# the function silently disables that code for the rest of the object's life.
+FLAG_SCOPE = (ENG, UTIL, "engine/default.py")
+
+
+def _quiet_call(nm):
+    return nm in ("isinstance", "len", "bool", "id", "type") or (nm or "").rsplit(".", 1)[-1] in (
+        "_log_info", "_log_debug", "debug", "info")
+
+
+def _flag_sites(ctx):
+    """[(FuncInfo, flag, g, set nodes, reset nodes)] for every transient flag in FLAG_SCOPE."""
+    out = []
+    for rel in FLAG_SCOPE:
+        m = ctx.index.module(rel)
+        if "= True" not in m.source:
+            continue
+        for f in ctx.index.all_functions(m):
+            on, off = {}, {}
+            for d, t, st in attr_stores(f.node):
+                if d.startswith("self.") and d.count(".") == 1 and isinstance(st, (ast.Assign, ast.AnnAssign)):
+                    if _is_const(st.value, True):
+                        on.setdefault(d, []).append(st)
+                    elif _is_const(st.value, False):
+                        off.setdefault(d, []).append(st)
+            for d in sorted(set(on) & set(off)):
+                g = ctx.cfg(f)
+                s_nodes = [n for st in on[d] for n in g.nodes_for(st)]
+                r_nodes = [n for st in off[d] for n in g.nodes_for(st)]
+                # transient = a reset is reachable after the set (if/else alternatives are configuration, not a flag)
+                if not (set(r_nodes) & g.reachable(s_nodes)):
+                    continue
+                ctx.functions_analysed.add(f.key)
+                out.append((f, d, g, on[d], s_nodes, r_nodes))
+    return out
+
+
+@R.rule("C23-R7", floor=4, template="T-PATH",
+        desc="every in-progress flag (self.X = True ... self.X = False in one function of engine/base|util|default) "
+             "is reset on every exit after it was set (finally), and nothing that can raise sits between the set "
+             "and the protected region")
+def r7(ctx):
+    ix = ctx.index
+    for f, flag, g, set_stmts, s_nodes, r_nodes in _flag_sites(ctx):
+        attr = flag.split(".", 1)[1]
+        readers = sorted({m.qualname for m in (f.cls.methods.values() if f.cls is not None else [])
+                          if m.key != f.key and any(isinstance(x, ast.Attribute) and isinstance(x.ctx, ast.Load)
+                                                    and dotted(x) == flag for x in walk_local(m.node))})
+        gated = f" (read by {', '.join(readers)})" if readers else ""
+        pm = parent_map(f.node)
+        base_tries = {id(tr) for st in set_stmts for tr, _ in enclosing_try(pm, st)}
+        rset = set(r_nodes)
+        # the gap: statements executed after the set, before control enters a try statement (or reaches a reset)
+        gap, todo = set(), list(s_nodes)
+        while todo:
+            a = todo.pop()
+            for b, lab in g.succ[a]:
+                if lab == "exc" or b in gap or b in rset:
+                    continue
+                st = g.nodes[b].stmt
+                if st is not None and st in pm and any(id(tr) not in base_tries for tr, _ in enclosing_try(pm, st)):
+                    continue
+                if isinstance(st, ast.Try):
+                    continue
+                gap.add(b)
+                todo.append(b)
+        calm_nodes = {n.id for n in g.nodes if own_calls(n) and all(_quiet_call(call_name(c)) for c in own_calls(n))}
+        calm_ok = cut_exc_out(calm_nodes)
+        escaping = []
+        for n in sorted((gap | set(s_nodes)) - calm_nodes):
+            if g.witness([n], [g.raise_exit], avoid=rset, edge_ok=both(fin_quiet(g), calm_ok), start_edge_ok=EXC):
+                escaping.append(n)
+        what = sorted({unparse(c.func) for n in escaping for c in own_calls(g.nodes[n])} or
+                      {g.nodes[n].describe() for n in escaping})
+        ctx.check(not escaping, f"{f.key}:{attr}:nothing-raises-before-protection",
+                  f"`{flag} = True` is followed by {', '.join('`' + w + '(...)`' for w in what)} outside the try/finally that resets "
+                  f"the flag: if it raises, {f.qualname} is left with the flag set for the rest of the object's life and "
+                  f"everything gated on it{gated} is silently disabled",
+                  "the set is immediately followed by the protected region", f.loc,
+                  [g.nodes[n].describe() for n in escaping] or None)
+        w = must_pass(g, s_nodes, [g.exit, g.raise_exit], r_nodes,
+                      edge_ok=both(fin_quiet(g), calm_ok, cut_exc_out(escaping)))
+        ctx.check(w is None, f"{f.key}:{attr}:reset-on-every-exit",
+                  f"an exit of {f.qualname} (normal or exceptional) after `{flag} = True` skips `{flag} = False`: the "
+                  f"in-progress flag outlives the operation and everything gated on it{gated} is silently disabled",
+                  f"`{flag} = False` on every exit (finally)", f.loc, w)
 
 
 # ---------------------------------------------------------------------- self-test battery
@@ -423,3 +525,35 @@ R.mutant("benign-root-commit-comment-log", ENG,
 R.mutant("benign-exit-rename-local", UTIL, sub("out_of_band_exit", "oob", count=3), None)
 R.mutant("benign-nested-init-reorder-independent", ENG,
          sub("        self.is_active = True\n        self._previous_nested = connection._nested_transaction\n", "        self._previous_nested = connection._nested_transaction\n        self.is_active = True\n"), None)
+
+# --- C23-R7 / seeds (round 2)
+BEGIN_TRY = ("        try:\n            self.engine.dialect.do_begin(self.connection)\n        except BaseException as e:\n"
+             "            self._handle_dbapi_exception(e, None, None, None, None)\n        finally:\n            self.__in_begin = False\n")
+R.mutant("seed1-begin-flag-reset-not-in-finally", ENG,
+         sub(BEGIN_TRY, BEGIN_TRY.replace("        finally:\n            self.__in_begin = False\n", "\n        self.__in_begin = False\n")), "C23-R7")
+TWOPHASE_TRY = ("        try:\n            self.engine.dialect.do_begin_twophase(self, transaction.xid)\n        except BaseException as e:\n"
+                "            self._handle_dbapi_exception(e, None, None, None, None)\n        finally:\n            self.__in_begin = False\n")
+R.mutant("twophase-flag-reset-in-else", ENG,
+         sub(TWOPHASE_TRY, TWOPHASE_TRY.replace("        finally:\n", "        else:\n")), "C23-R7")
+R.mutant("twophase-dispatch-after-flag-set", ENG,
+         sub("        if self._has_events or self.engine._has_events:\n            self.dispatch.begin_twophase(self, transaction.xid)\n\n        self.__in_begin = True\n",
+             "        self.__in_begin = True\n        if self._has_events or self.engine._has_events:\n            self.dispatch.begin_twophase(self, transaction.xid)\n\n"), "C23-R7")
+R.mutant("benign-begin-flag-set-next-to-try", ENG,
+         sub("        self.__in_begin = True\n\n        if self._has_events or self.engine._has_events:\n            self.dispatch.begin(self)\n\n        try:\n",
+             "        if self._has_events or self.engine._has_events:\n            self.dispatch.begin(self)\n\n        self.__in_begin = True\n        try:\n"), None)
+R.mutant("benign-twophase-flag-set-inside-try", ENG,
+         sub("        self.__in_begin = True\n        try:\n            self.engine.dialect.do_begin_twophase(self, transaction.xid)\n",
+             "        try:\n            self.__in_begin = True\n            self.engine.dialect.do_begin_twophase(self, transaction.xid)\n"), None)
+R.mutant("benign-begin-log-after-flag-set", ENG,
+         sub("        self.__in_begin = True\n        try:\n            self.engine.dialect.do_begin_twophase(self, transaction.xid)\n",
+             "        self.__in_begin = True\n        self._log_debug(\"begin twophase\")\n        try:\n            self.engine.dialect.do_begin_twophase(self, transaction.xid)\n"), None)
+# --- C23-R5 / seed 2
+R.mutant("seed2-cancel-returns-early-when-inactive", ENG,
+         sub("        # without any action being taken\n        self.is_active = False\n        self._deactivate_from_connection()\n",
+             "        # without any action being taken\n        if not self.is_active:\n            return\n        self.is_active = False\n        self._deactivate_from_connection()\n"), "C23-R5")
+R.mutant("cancel-unlink-only-when-previous", ENG,
+         sub("        self.is_active = False\n        self._deactivate_from_connection()\n        if self._previous_nested:\n            self._previous_nested._cancel()\n",
+             "        self.is_active = False\n        if self._previous_nested:\n            self._deactivate_from_connection()\n            self._previous_nested._cancel()\n"), "C23-R5")
+R.mutant("benign-cancel-flag-cleared-only-if-set", ENG,
+         sub("        # without any action being taken\n        self.is_active = False\n        self._deactivate_from_connection()\n",
+             "        # without any action being taken\n        if self.is_active:\n            self.is_active = False\n        self._deactivate_from_connection()\n"), None)
